@@ -62,7 +62,9 @@ COORD_CLASSES = ['random', 'rounding-boundary', 'negative-zero', 'widest', 'inte
 BOX_CLASSES = ['vector', 'diagonal', 'triclinic', 'triclinic-negative', 'triclinic-tiny', 'unset', 'zero-vector',
                'triclinic-upper', 'triclinic-single']
 TITLES = ['ionic liquid', ' leading blank', 'trailing blank  ', 't=   0.00000 step= 0', 'x', '; semi [ bracket ]',
-          '   ', '12345', 'Gro file, with: punctuation! (and) more', 'tab\there']
+          '   ', '12345', 'Gro file, with: punctuation! (and) more', 'tab\there',
+          # characters that take more than one byte in the file (character count != byte count)
+          "Prot\u00e9ine dans l'eau", 'box in nm\u00b2, \u03b1-helix', '\u6c34 64 mol\u00e9culas', 'caf\u00e9']
 
 
 def gen_box(rng, cls):
@@ -135,6 +137,8 @@ def gen_spec(rng, nmax=300, dec=None, with_vel=None, force=None):
     if fmt is None:
         fmt = 'set' if d != 3 else ['default', 'set'][int(rng.integers(0, 2))]
     title = None if rng.random() < 0.1 else TITLES[int(rng.integers(0, len(TITLES)))]
+    if force.get('title') == 'multibyte':
+        title = TITLES[-1 - int(rng.integers(0, 4))]
     return {'title': title, 'records': records, 'box': None if box is None else box.tolist(), 'box_class': bcls,
             'dec': d, 'format': fmt, 'declare_count': bool(rng.random() < 0.5) if 'declare' not in force else force['declare'],
             'with_vel': vel, 'number_class': ncls, 'coord_class': ccls,
